@@ -652,12 +652,10 @@ impl Quantity {
         Self::new(
             #[cfg(feature = "std")]
             self.value.abs(),
+            //Clearing the sign bit is what `f32::abs` does; a comparison-based absolute value would return
+            //-0.0 for -0.0, which shows as -inf instead of inf after a division.
             #[cfg(not(feature = "std"))]
-            if self.value >= 0.0 {
-                self.value
-            } else {
-                -self.value
-            },
+            f32::from_bits(self.value.to_bits() & 0x7FFF_FFFF),
             self.unit,
         )
     }
